@@ -42,7 +42,11 @@ BAD_HEADERS = [
     ("nul-val", [(b"x-a", b"a\x00b")]), ("crlf-name", [(b"x-a\r\nx-evil", b"1")]), ("nul-name", [(b"x\x00a", b"1")]),
     ("crlf-val-memoryview", [(b"x-a", memoryview(b"1\r\nx-evil: 2"))]), ("nul-val-bytearray", [(b"x-a", bytearray(b"a\x00b"))]),
     ("crlf-name-memoryview", [(memoryview(b"x-a\r\nx-evil"), b"1")]),
+    ("pseudo-leading-space", [(b" :status", b"500")]), ("pseudo-leading-tab", [(b"\t:path", b"/x")]),
 ]
+# payloads the statement does not name, which one protocol library may refuse while the other does not: wire clauses only
+EXOTIC_HEADERS = [("space-in-name", [(b"bad name", b"1")]), ("colon-in-name", [(b"x:a", b"1")]), ("upper-name", [(b"X-Upper", b"1")]),
+                  ("nonascii-val", [(b"x-a", b"caf\xc3\xa9")]), ("empty-name", [(b"", b"1")])]
 OK_HEADERS = [("bytearray", [(bytearray(b"x-a"), bytearray(b"1"))]), ("memoryview", [(b"x-a", memoryview(b"1"))]),
               ("long", [(b"x-a", b"v" * 5000)]), ("empty-val", [(b"x-a", b"")])]
 
@@ -54,7 +58,10 @@ WS_CLOSE = {"type": "websocket.close", "code": 1000}
 WS_HS = {"type": "websocket.http.response.start", "status": 401, "headers": [(b"x-w", b"1")]}
 WS_HB = {"type": "websocket.http.response.body", "body": b"no", "more_body": False}
 WS_HBM = {"type": "websocket.http.response.body", "body": b"mo", "more_body": True}
-WS_ALPHABET = [("A", WS_ACCEPT), ("TX", WS_TEXT), ("BY", WS_BYTES), ("BADTX", WS_BADTEXT), ("C", WS_CLOSE), ("HS", WS_HS),
+# the chosen subprotocol becomes a response header value: it is application-supplied data like any other header
+WS_ACCEPT_SUB = {"type": "websocket.accept", "subprotocol": "chat"}
+WS_ACCEPT_SUBCTL = {"type": "websocket.accept", "subprotocol": "chat\r\nx-injected: yes"}
+WS_ALPHABET = [("A", WS_ACCEPT), ("A_SUB", WS_ACCEPT_SUB), ("A_SUBCTL", WS_ACCEPT_SUBCTL), ("TX", WS_TEXT), ("BY", WS_BYTES), ("BADTX", WS_BADTEXT), ("C", WS_CLOSE), ("HS", WS_HS),
                ("HB", WS_HB), ("HBM", WS_HBM), ("U", U)]
 
 
@@ -85,7 +92,7 @@ def gen(rng, tier):
     # payload substitutions: put each bad/ok header list into the first start message of a few base sequences
     bases = [(0,), (0, 4), (3, 0, 4), (0, 3, 4), (7,), (0, 7, 4), (6,)]
     for base in bases:
-        for name, hdrs in BAD_HEADERS + OK_HEADERS:
+        for name, hdrs in BAD_HEADERS + OK_HEADERS + EXOTIC_HEADERS:
             seqs.append(("http", base, (name, hdrs)))
     seqs.append(("http", (7,), ("push-path-bytes", None)))
     seqs.append(("http", (0, 7, 4), ("push-path-bytes", None)))
@@ -93,9 +100,11 @@ def gen(rng, tier):
     for L in range(1, maxlen + 1):
         for combo in itertools.product(range(len(WS_ALPHABET)), repeat=L):
             wseqs.append(("ws", combo, None))
-    for name, hdrs in BAD_HEADERS + OK_HEADERS:
-        wseqs.append(("ws", (5, 6), (name, hdrs)))      # denial response headers
-        wseqs.append(("ws", (0, 1), ("accept:" + name, hdrs)))  # accept headers
+    ia, itx, ihs, ihb = [[k for k, (nm, _) in enumerate(WS_ALPHABET) if nm == x][0] for x in ("A", "TX", "HS", "HB")]
+    for name, hdrs in BAD_HEADERS + OK_HEADERS + EXOTIC_HEADERS:
+        wseqs.append(("ws", (ihs, ihb), (name, hdrs)))      # denial response headers
+        wseqs.append(("ws", (ia, itx), ("accept:" + name, hdrs)))  # accept headers, then a frame
+        wseqs.append(("ws", (ia, itx, ia, itx), ("accept:" + name, hdrs)))
     rng.shuffle(seqs)
     rng.shuffle(wseqs)
     if tier == "quick":
@@ -195,8 +204,8 @@ def _hdrs_ok(headers):
             for x in (name, value):
                 if not isinstance(x, (bytes, bytearray, memoryview)):
                     return False
-            if bytes(name)[:1] == b":":
-                return False
+            if bytes(name).strip()[:1] == b":":
+                return False  # a pseudo-header, also when padded with the optional whitespace the server trims
     except Exception:
         return False
     return True
@@ -210,7 +219,13 @@ def _hdrs_ctl(headers):
 
 
 def _hdrs_exotic(headers):
-    return any(not isinstance(x, bytes) for pair in headers for x in pair)
+    if any(not isinstance(x, bytes) for pair in headers for x in pair):
+        return True
+    for name, value in headers:
+        n = bytes(name)
+        if n == b"" or n != n.lower() or b" " in n.strip() or b":" in n.strip()[1:] or any(c > 126 for c in n + bytes(value)):
+            return True
+    return False
 
 
 def http_automaton(msgs, proto, te):
@@ -292,7 +307,9 @@ def ws_automaton(msgs):
         if t == "not.a.real.type":
             verdict = "invalid" if state not in ("CLOSED_BY_PEER",) else "unjudged"
         elif t == "websocket.accept":
-            if state == "HANDSHAKE":
+            if m.get("subprotocol") is not None:
+                verdict = "unjudged"  # C11 judges the subprotocol rule; here only the wire clauses apply
+            elif state == "HANDSHAKE":
                 if _hdrs_ok(m.get("headers", [])):
                     verdict = "valid"
                     state = "CONNECTED"
@@ -445,6 +462,12 @@ def check(case, obs, tally):
                             "detail": "stream %d carries %d final response heads (sequence %r)" % (sid, nfinal, t["seq"])})
             for h in s.heads:
                 heads.extend(h or [])
+                names = [bytes(nme) for nme, _ in (h or [])]
+                pseudo = [x for x in names if x[:1] == b":"]
+                if h and (pseudo.count(b":status") > 1 or any(x != b":status" for x in pseudo) or
+                          any(x[:1] == b":" for x in names[len(pseudo):])):
+                    out.append({"clause": "wire-prefix", "sig": "C12.wire/h2/malformed-header-block",
+                                "detail": "stream %d: response header block with pseudo-headers %r (sequence %r, payload %s)" % (sid, pseudo, t["seq"], t["sub"])})
         for p in rx.pushes:
             heads.extend(p.get("headers") or [])
         if obs.closed_at is None and not rx.errors() and rx.goaway is None:
